@@ -264,16 +264,8 @@ static void sec_cross(vf::Ctx& c) {
     if (ka != kb || ka == K_MEM) c.nontrivial(tp + std::to_string(va) + std::to_string(vb) + std::to_string(la) + std::to_string(lb));
 }
 
-static void init() {
-    init_pairs(); init_getters();
-    g_repo = new MockNamedValueComparatorsAndCopiersRepository;
-    g_repo->installComparator("T1", g_cmp);
-    g_repo->installComparator("T2", g_cmp);
-}
-
 int main(int argc, char** argv) {
-    for (int t = 0; t < T_N; t++) LAT[t] = lattice_for(t);
-    pair_prefix.clear(); pair_total = 0; init_pairs(); get_prefix.clear(); get_total = 0; init_getters();
+    init_pairs(); init_getters();
     g_repo = new MockNamedValueComparatorsAndCopiersRepository;
     g_repo->installComparator("T1", g_cmp);
     g_repo->installComparator("T2", g_cmp);
